@@ -7,8 +7,10 @@ open Lumina.Util Lumina.Model.Counter
 
 namespace Driver.C41
 
-/-- driver state: the model state of the sequential history + the spec-side history (which is
-    computed from the OP LINES only, never from the model) -/
+/-- driver state: the model state of the sequential history + the spec-side history `Hist`
+    (`track`: from the op and the OUTCOME CLASS the model assigns to it — ok / refused —, since the
+    framework threads the model's state through the spec pass; an implementation that disagrees on
+    that class is reported as a model disagreement on that very line) -/
 structure St where
   m : State
   h : Lumina.Spec.C41.Hist
